@@ -1,6 +1,7 @@
 import Driver.OpsRange
 import Driver.OpsFields
 import Driver.OpsEngine
+import Driver.OpsFixed
 open Driver
 
 def dispatch (args : List String) : String :=
@@ -10,6 +11,7 @@ def dispatch (args : List String) : String :=
     if op.startsWith "range." || op.startsWith "tok." then opRange args
     else if op.startsWith "field." then opFields args
     else if op == "engine" then opEngine args
+    else if op == "fixed" then opFixed args
     else "bad-op"
 
 partial def loop (h : IO.FS.Stream) (out : IO.FS.Stream) : IO Unit := do
